@@ -1,7 +1,10 @@
 import Blots.Model.Print
 /-
-  `formatter.rs`: width-driven layout.  `fmtImpl w indent e` is `format_expr_impl`.
-  Lengths are byte lengths (`str::len`), as in the Rust code.
+  `formatter.rs`: width-driven layout.  `fmtImplP w indent e` is `format_expr_impl`, as a
+  list of pieces (text / comment) whose `render` is the Rust string; `fmtImpl` = its rendering.
+  All functions are total (structural recursion).  Lengths are byte lengths (`str::len`), as
+  in the Rust code.  Theorems: `Lemmas/FormatLemmas.lean` (single-line path),
+  `Lemmas/FormatPieces.lean` (comment preservation of every layout), `Props/C07–C09`.
 -/
 namespace Blots
 
@@ -14,21 +17,18 @@ def blen (s : String) : Nat := s.utf8ByteSize
 
 def hasNewline (s : String) : Bool := s.toList.contains '\n'
 
-/-- `s.lines().next().unwrap_or(s)` : text before the first line break (a trailing `\r` of
-    that line is stripped by `lines()`); for the empty string `lines()` yields nothing -/
-def firstLine (s : String) : String :=
-  let l := s.toList.takeWhile (· != '\n')
-  let cut := l.length < s.toList.length   -- a '\n' was found
-  let l := if cut && l.getLast? == some '\r' then l.dropLast else l
-  String.ofList l
+/-- the first line of `str::lines()` on characters: up to the first `'\n'`, without the
+    `'\r'` in front of it -/
+def firstLineL : List Char → List Char
+  | [] => []
+  | c :: t =>
+    if c == '\n' then []
+    else if c == '\r' && t.head? == some '\n' then []
+    else c :: firstLineL t
 
-/-- `lines().skip(1).collect().join("\n")` -/
-def restLines (s : String) : String :=
-  let ls := (s.splitOn "\n")
-  -- `lines()` drops one trailing empty piece and strips `\r`
-  let ls := if ls.getLast? == some "" then ls.dropLast else ls
-  let ls := ls.map fun l => if l.toList.getLast? == some '\r' then String.ofList l.toList.dropLast else l
-  "\n".intercalate (ls.drop 1)
+/-- `s.lines().next().unwrap_or(s)` : text before the first line break (a `\r` in front of
+    that line break is stripped by `lines()`); for the empty string `lines()` yields nothing -/
+def firstLine (s : String) : String := String.ofList (firstLineL s.toList)
 
 def lambdaArgsPart (args : List LArg) : String :=
   match args with
@@ -116,136 +116,362 @@ def fmtSingleKeyed : Key → String → String
   | .spread e, _ => fmtSingle e
 end
 
-def trailStr : Option String → String
-  | some t => "  " ++ t
-  | none => ""
+/-! ### pieces
 
-def leadLines (indentStr : String) (cs : List String) : String :=
-  String.join (cs.map fun c => "\n" ++ indentStr ++ c)
+  The layout functions produce a list of PIECES instead of a string, so that the comments
+  copied from the tree stay identifiable in the output: `render` concatenates the pieces and
+  is the text `formatter.rs` returns.  A comment piece remembers the comment of the tree it
+  was copied from (`orig`) and the text it contributes to the output (`shown`).  They are the
+  same string wherever a comment is emitted; the only code that rewrites already formatted
+  text — the `lines()` / `join("\n")` round trip in `format_binary_op_multiline` — changes
+  `shown` (it deletes a carriage return in front of a line feed), see `relineP`. -/
 
-/- The layout functions call each other on the *same* node (impl → multiline → per-kind
-   layout), so they are not structurally recursive; they are `partial` here and tied to the
-   code by correspondence only.  Theorems are stated about `fmtSingle` / `exprSrc`. -/
+inductive Piece where
+  | text (s : String)
+  | comment (orig shown : String)
+  deriving Repr, DecidableEq, Inhabited
+
+def Piece.shown : Piece → String
+  | .text s => s
+  | .comment _ s => s
+
+/-- same kind of piece (and same `orig`), other text -/
+def Piece.withShown : Piece → String → Piece
+  | .text _, s => .text s
+  | .comment o _, s => .comment o s
+
+/-- the formatter's output text -/
+def render (ps : List Piece) : String := String.join (ps.map Piece.shown)
+
+/-- the comments in the output, as they appear there, in output order -/
+def commentPieces (ps : List Piece) : List String :=
+  ps.filterMap fun | .comment _ s => some s | .text _ => none
+
+/-- the comments of the tree that the comment pieces were copied from, in output order -/
+def commentOrigs (ps : List Piece) : List String :=
+  ps.filterMap fun | .comment o _ => some o | .text _ => none
+
+/-- leading comments, each on its own line (`for comment in &item.leading { … }`) -/
+def leadP (indentStr : String) : List String → List Piece
+  | [] => []
+  | c :: cs => .text ("\n" ++ indentStr) :: .comment c c :: leadP indentStr cs
+
+/-- trailing comment on the line of its item -/
+def trailP : Option String → List Piece
+  | some t => [.text "  ", .comment t t]
+  | none => []
+
+def parenP (b : Bool) (ps : List Piece) : List Piece :=
+  if b then .text "(" :: (ps ++ [.text ")"]) else ps
+
+/-- `protect_statement_start` on pieces -/
+def protectP (ps : List Piece) : List Piece :=
+  match (render ps).toList with
+  | '-' :: _ => .text "(" :: (ps ++ [.text ")"])
+  | _ => ps
+
+/-! #### `lines()` and the re-join of `format_binary_op_multiline` -/
+
+/-- put a character in front of the first line -/
+def consLine (c : Char) : List (List Char) → List (List Char)
+  | [] => [[c]]
+  | l :: ls => (c :: l) :: ls
+
+/-- `str::lines()` on characters: lines end at `'\n'`; a line that was ended by `'\n'` loses
+    one `'\r'` in front of it; what follows the last `'\n'` is a line only if it is not
+    empty, and keeps a `'\r'` at its end -/
+def linesL : List Char → List (List Char)
+  | [] => []
+  | c :: t =>
+    if c == '\n' then [] :: linesL t
+    else if c == '\r' && t.head? == some '\n' then linesL t
+    else consLine c (linesL t)
+
+def rustLines (s : String) : List String := (linesL s.toList).map String.ofList
+
+/-- `lines().skip(1).collect::<Vec<_>>().join("\n")` -/
+def restLines (s : String) : String := "\n".intercalate ((rustLines s).drop 1)
+
+/-- `format!("{}\n{}", s.lines().next().unwrap_or(s), s.lines().skip(1)…join("\n"))`:
+    what the via / into / where branch makes of the formatted right operand -/
+def relines (s : String) : String := firstLine s ++ "\n" ++ restLines s
+
+/-- delete every `'\r'` that stands directly in front of a `'\n'`; `next` is the character
+    that follows the list -/
+def stripCRs (next : Option Char) : List Char → List Char
+  | [] => []
+  | c :: t =>
+    if c == '\r' && (t.head? <|> next) == some '\n' then stripCRs next t
+    else c :: stripCRs next t
+
+/-- first character of the rendered text -/
+def firstCharP : List Piece → Option Char
+  | [] => none
+  | p :: rest =>
+    match p.shown.toList with
+    | c :: _ => some c
+    | [] => firstCharP rest
+
+/-- `stripCRs` over the rendered text, piece by piece -/
+def stripP : List Piece → List Piece
+  | [] => []
+  | p :: rest =>
+    p.withShown (String.ofList (stripCRs (firstCharP rest) p.shown.toList)) :: stripP rest
+
+/-- (pieces in reverse order) delete the last character of the text if it is `'\n'` -/
+def dropFinalNlRev : List Piece → List Piece
+  | [] => []
+  | p :: before =>
+    if p.shown.toList.isEmpty then p :: dropFinalNlRev before
+    else if p.shown.toList.getLast? == some '\n' then
+      p.withShown (String.ofList p.shown.toList.dropLast) :: before
+    else p :: before
+
+def dropFinalNl (ps : List Piece) : List Piece := (dropFinalNlRev ps.reverse).reverse
+
+/-- `relines` on pieces (for a text with a line break): the `lines()` round trip deletes a
+    `'\r'` in front of every `'\n'`, and the final `'\n'` of a text that ends with one and
+    has another one before it.  Nothing else changes, so the pieces stay what they were. -/
+def relineP (ps : List Piece) : List Piece :=
+  let qs := stripP ps
+  let cs := (render qs).toList
+  if cs.getLast? == some '\n' && decide (2 ≤ cs.count '\n') then dropFinalNl qs else qs
+
+/-! #### the layouts
+
+  In `formatter.rs` the layout functions call each other on the *same* node
+  (`format_expr_impl` → `format_multiline` → `format_conditional_multiline` → …) before they
+  descend.  Here `fmtImplP` does the whole dispatch for one node, so that every recursive
+  call is on a child and the definition is structural (total, no fuel); the per-kind layouts
+  are the non-recursive `…Layout` functions, which get the formatted children as arguments —
+  as thunks where `formatter.rs` formats a child only on one branch.  `fmtMultiP`,
+  `fmtLambdaP`, `fmtCondP`, `fmtBinP` below restate the functions of `formatter.rs` one by
+  one, and `fmtImplP_eq` says `fmtImplP` is `format_expr_impl` over them. -/
+
+/-- tail of `format_expr_impl`: the single-line text if it is one line and fits -/
+def orSingle (w indent : Nat) (e : Expr) (multi : Unit → List Piece) : List Piece :=
+  let single := fmtSingle e
+  if !hasNewline single && indent + blen (firstLine single) ≤ w then [.text single]
+  else multi ()
+
+/-- `format_lambda`; `b` = body at `indent`, `bIn` = body one level deeper -/
+def lambdaLayout (w indent : Nat) (args : List LArg) (body : Expr) (b : List Piece)
+    (bIn : Unit → List Piece) : List Piece :=
+  let argsPart := lambdaArgsPart args ++ " =>"
+  if lambdaBodyNeedsParens body then .text (argsPart ++ " (") :: (b ++ [.text ")"])
+  else
+    match body with
+    | .doBlock _ _ => .text (argsPart ++ " ") :: b
+    | _ =>
+      let single := argsPart ++ " " ++ render b
+      if !hasNewline single && indent + blen single ≤ w then .text (argsPart ++ " ") :: b
+      else .text (argsPart ++ "\n" ++ makeIndent (indent + INDENT_SIZE)) :: bIn ()
+
+/-- the `else` part of a conditional: `chain` = the layout of the else-expression when it is
+    itself a conditional (`else if …` stays flat), `plain` = the else-expression one level
+    deeper -/
+def elseLayout (indent : Nat) (chain : Option (List Piece)) (plain : Unit → List Piece) :
+    List Piece :=
+  match chain with
+  | some ps => .text "else " :: ps
+  | none => .text ("else\n" ++ makeIndent (indent + INDENT_SIZE)) :: plain ()
+
+/-- `format_conditional_multiline`; `cP` = condition at `indent`, `cIn` = condition one level
+    deeper, `tIn` = then-expression one level deeper, `elseP` = `elseLayout …` -/
+def condLayout (w indent : Nat) (cP : List Piece) (cIn : Unit → List Piece) (tIn : List Piece)
+    (elseP : List Piece) : List Piece :=
+  let inner := indent + INDENT_SIZE
+  let ifThen := "if " ++ render cP ++ " then"
+  if indent + blen ifThen ≤ w then
+    .text "if " :: (cP ++ .text (" then\n" ++ makeIndent inner) ::
+      (tIn ++ .text ("\n" ++ makeIndent indent) :: elseP))
+  else
+    .text "if " :: (cIn () ++ .text ("\n" ++ makeIndent indent ++ "then\n" ++ makeIndent inner) ::
+      (tIn ++ .text ("\n" ++ makeIndent indent) :: elseP))
+
+def isLambda : Expr → Bool
+  | .lambda _ _ => true
+  | _ => false
+
+/-- `format_binary_op_multiline`; `lP` = left operand at `indent`, `rSame` = right operand at
+    `indent`, `rIn` = right operand one level deeper -/
+def binLayout (w indent : Nat) (op : BinOp) (l r : Expr) (lP : List Piece)
+    (rSame rIn : Unit → List Piece) : List Piece :=
+  let opStr := fmtSpelling op
+  let rp := needsParens r (.binRight op)
+  let lsP := parenP (needsParens l (.binLeft op)) lP
+  let isChain := op == .via || op == .into || op == .where_
+  if isChain && isLambda r then
+    let rsP := parenP rp (rSame ())
+    let rs := render rsP
+    let combined := render lsP ++ " " ++ opStr ++ " " ++ firstLine rs
+    if indent + blen combined ≤ w then
+      if hasNewline rs then lsP ++ .text (" " ++ opStr ++ " ") :: relineP rsP
+      else lsP ++ .text (" " ++ opStr ++ " ") :: rsP
+    else lsP ++ .text ("\n" ++ makeIndent indent ++ opStr ++ " ") :: rsP
+  else
+    lsP ++ .text ("\n" ++ makeIndent (indent + INDENT_SIZE) ++ opStr ++ " ") :: parenP rp (rIn ())
+
+/-- a node `format_multiline` has no layout for (literals, names): `expr_to_source` -/
+def leafP (w indent : Nat) (e : Expr) : List Piece :=
+  orSingle w indent e fun _ => [.text (exprToSource e)]
+
 mutual
 /-- `format_expr_impl` -/
-partial def fmtImpl (w : Nat) (indent : Nat) : Expr → String
-  | .lambda args body => fmtLambda w indent (.lambda args body)
-  | .doBlock ss r => fmtMulti w indent (.doBlock ss r)
-  | e =>
-    let single := fmtSingle e
-    if !hasNewline single && indent + blen (firstLine single) ≤ w then single
-    else fmtMulti w indent e
-/-- `format_multiline` -/
-partial def fmtMulti (w : Nat) (indent : Nat) : Expr → String
-  | .output e => "output " ++ fmtImpl w indent e
-  | .assign n v => n ++ " = " ++ fmtImpl w indent v
-  | .list items =>
-    if items.isEmpty then "[]"
-    else "[" ++ fmtItems w (indent + INDENT_SIZE) items ++ "\n" ++ makeIndent indent ++ "]"
-  | .record es =>
-    if es.isEmpty then "{}"
-    else "{" ++ fmtEntries w (indent + INDENT_SIZE) es ++ "\n" ++ makeIndent indent ++ "}"
-  | .cond c t e => fmtCond w indent (.cond c t e)
-  | .call f args =>
-    let fs := parenIf (needsParens f .postfix_) (fmtImpl w indent f)
-    if args.isEmpty then fs ++ "()"
-    else fs ++ "(" ++ fmtArgs w (indent + INDENT_SIZE) args ++ "\n" ++ makeIndent indent ++ ")"
-  | .bin op l r => fmtBin w indent (.bin op l r)
-  | .doBlock ss r =>
-    "do {" ++ fmtStmts w (indent + INDENT_SIZE) ss ++ fmtRet w (indent + INDENT_SIZE) r ++
-      "\n" ++ makeIndent indent ++ "}"
-  | .un op e => unaryOpToSource op ++ parenIf (needsParens e .prefix_) (fmtImpl w indent e)
-  | .fact e => parenIf (needsParens e .postfix_) (fmtImpl w indent e) ++ "!"
-  | .access e i =>
-    parenIf (needsParens e .postfix_) (fmtImpl w indent e) ++ "[" ++ fmtImpl w indent i ++ "]"
-  | .dot e f => parenIf (needsParens e .postfix_) (fmtImpl w indent e) ++ "." ++ f
-  | .spread e => "..." ++ fmtImpl w indent e
-  | e => exprToSource e
-/-- `format_list_multiline` body: each item on its own line at `inner` -/
-partial def fmtItems (w : Nat) (inner : Nat) : List Item → String
-  | [] => ""
-  | (.mk lead e tr) :: rest =>
-    leadLines (makeIndent inner) lead ++ "\n" ++ makeIndent inner ++ fmtImpl w inner e ++ "," ++
-      trailStr tr ++ fmtItems w inner rest
-partial def fmtEntries (w : Nat) (inner : Nat) : List Entry → String
-  | [] => ""
-  | (.mk lead k v tr) :: rest =>
-    leadLines (makeIndent inner) lead ++ "\n" ++ makeIndent inner ++ fmtKeyed w inner k (fmtImpl w inner v) ++ "," ++
-      trailStr tr ++ fmtEntries w inner rest
-/-- `format_record_entry` given the formatted value -/
-partial def fmtKeyed (w : Nat) (inner : Nat) : Key → String → String
-  | .static k, vs => formatRecordKey k ++ ": " ++ vs
-  | .dyn ke, vs => "[" ++ fmtImpl w inner ke ++ "]: " ++ vs
-  | .short n, _ => n
-  | .spread e, _ => fmtImpl w inner e
-partial def fmtArgs (w : Nat) (inner : Nat) : List Expr → String
-  | [] => ""
-  | a :: rest => "\n" ++ makeIndent inner ++ fmtImpl w inner a ++ "," ++ fmtArgs w inner rest
-partial def fmtStmts (w : Nat) (inner : Nat) : List Item → String
-  | [] => ""
-  | (.mk lead e tr) :: rest =>
-    leadLines (makeIndent inner) lead ++ "\n" ++ makeIndent inner ++
-      protectStatementStart (fmtImpl w inner e) ++ trailStr tr ++ fmtStmts w inner rest
-partial def fmtRet (w : Nat) (inner : Nat) : Item → String
-  | .mk lead e _ =>
-    leadLines (makeIndent inner) lead ++ "\n" ++ makeIndent inner ++ "return " ++ fmtImpl w inner e
-/-- `format_lambda` (argument is the whole lambda) -/
-partial def fmtLambda (w : Nat) (indent : Nat) : Expr → String
+def fmtImplP (w indent : Nat) : Expr → List Piece
   | .lambda args body =>
-    let argsPart := lambdaArgsPart args ++ " =>"
-    if lambdaBodyNeedsParens body then argsPart ++ " (" ++ fmtImpl w indent body ++ ")"
-    else
-      let b := fmtImpl w indent body
-      match body with
-      | .doBlock _ _ => argsPart ++ " " ++ b
-      | _ =>
-        let single := argsPart ++ " " ++ b
-        if !hasNewline single && indent + blen single ≤ w then single
-        else argsPart ++ "\n" ++ makeIndent (indent + INDENT_SIZE) ++ fmtImpl w (indent + INDENT_SIZE) body
-  | e => exprToSource e
-/-- `format_conditional_multiline` (argument is the whole conditional) -/
-partial def fmtCond (w : Nat) (indent : Nat) : Expr → String
+    lambdaLayout w indent args body (fmtImplP w indent body)
+      (fun _ => fmtImplP w (indent + INDENT_SIZE) body)
+  | .doBlock ss r =>
+    .text "do {" :: (fmtStmtsP w (indent + INDENT_SIZE) ss ++
+      (fmtRetP w (indent + INDENT_SIZE) r ++ [.text ("\n" ++ makeIndent indent ++ "}")]))
+  | .output e => orSingle w indent (.output e) fun _ => .text "output " :: fmtImplP w indent e
+  | .assign n v => orSingle w indent (.assign n v) fun _ => .text (n ++ " = ") :: fmtImplP w indent v
+  | .list items => orSingle w indent (.list items) fun _ =>
+    if items.isEmpty then [.text "[]"]
+    else .text "[" :: (fmtItemsP w (indent + INDENT_SIZE) items ++
+      [.text ("\n" ++ makeIndent indent ++ "]")])
+  | .record es => orSingle w indent (.record es) fun _ =>
+    if es.isEmpty then [.text "{}"]
+    else .text "{" :: (fmtEntriesP w (indent + INDENT_SIZE) es ++
+      [.text ("\n" ++ makeIndent indent ++ "}")])
+  | .cond c t e => orSingle w indent (.cond c t e) fun _ =>
+    condLayout w indent (fmtImplP w indent c) (fun _ => fmtImplP w (indent + INDENT_SIZE) c)
+      (fmtImplP w (indent + INDENT_SIZE) t)
+      (elseLayout indent (fmtChainP w indent e) (fun _ => fmtImplP w (indent + INDENT_SIZE) e))
+  | .call f args => orSingle w indent (.call f args) fun _ =>
+    if args.isEmpty then parenP (needsParens f .postfix_) (fmtImplP w indent f) ++ [.text "()"]
+    else parenP (needsParens f .postfix_) (fmtImplP w indent f) ++
+      .text "(" :: (fmtArgsP w (indent + INDENT_SIZE) args ++
+        [.text ("\n" ++ makeIndent indent ++ ")")])
+  | .bin op l r => orSingle w indent (.bin op l r) fun _ =>
+    binLayout w indent op l r (fmtImplP w indent l) (fun _ => fmtImplP w indent r)
+      (fun _ => fmtImplP w (indent + INDENT_SIZE) r)
+  | .un op e => orSingle w indent (.un op e) fun _ =>
+    .text (unaryOpToSource op) :: parenP (needsParens e .prefix_) (fmtImplP w indent e)
+  | .fact e => orSingle w indent (.fact e) fun _ =>
+    parenP (needsParens e .postfix_) (fmtImplP w indent e) ++ [.text "!"]
+  | .access e i => orSingle w indent (.access e i) fun _ =>
+    parenP (needsParens e .postfix_) (fmtImplP w indent e) ++
+      .text "[" :: (fmtImplP w indent i ++ [.text "]"])
+  | .dot e f => orSingle w indent (.dot e f) fun _ =>
+    parenP (needsParens e .postfix_) (fmtImplP w indent e) ++ [.text ("." ++ f)]
+  | .spread e => orSingle w indent (.spread e) fun _ => .text "..." :: fmtImplP w indent e
+  | .num x => leafP w indent (.num x)
+  | .str s => leafP w indent (.str s)
+  | .bool b => leafP w indent (.bool b)
+  | .null => leafP w indent .null
+  | .ident n => leafP w indent (.ident n)
+  | .inref f => leafP w indent (.inref f)
+  | .builtin n => leafP w indent (.builtin n)
+/-- `format_conditional_multiline` of an else-expression that is itself a conditional
+    (the `if let Expr::Conditional { .. } = &else_expr.node` arms); `none` for anything else -/
+def fmtChainP (w indent : Nat) : Expr → Option (List Piece)
   | .cond c t e =>
-    let inner := indent + INDENT_SIZE
-    let ifThen := "if " ++ fmtImpl w indent c ++ " then"
-    if indent + blen ifThen ≤ w then
-      match e with
-      | .cond _ _ _ =>
-        ifThen ++ "\n" ++ makeIndent inner ++ fmtImpl w inner t ++ "\n" ++ makeIndent indent ++ "else " ++
-          fmtCond w indent e
-      | _ =>
-        ifThen ++ "\n" ++ makeIndent inner ++ fmtImpl w inner t ++ "\n" ++ makeIndent indent ++ "else\n" ++
-          makeIndent inner ++ fmtImpl w inner e
-    else
-      match e with
-      | .cond _ _ _ =>
-        "if " ++ fmtImpl w inner c ++ "\n" ++ makeIndent indent ++ "then\n" ++ makeIndent inner ++
-          fmtImpl w inner t ++ "\n" ++ makeIndent indent ++ "else " ++ fmtCond w indent e
-      | _ =>
-        "if " ++ fmtImpl w inner c ++ "\n" ++ makeIndent indent ++ "then\n" ++ makeIndent inner ++
-          fmtImpl w inner t ++ "\n" ++ makeIndent indent ++ "else\n" ++ makeIndent inner ++ fmtImpl w inner e
-  | e => exprToSource e
-/-- `format_binary_op_multiline` (argument is the whole binary operation) -/
-partial def fmtBin (w : Nat) (indent : Nat) : Expr → String
-  | .bin op l r =>
-    let opStr := fmtSpelling op
-    let rp := needsParens r (.binRight op)
-    let ls := parenIf (needsParens l (.binLeft op)) (fmtImpl w indent l)
-    let isChain := op == .via || op == .into || op == .where_
-    let isLam := match r with | .lambda _ _ => true | _ => false
-    if isChain && isLam then
-      let rs := parenIf rp (fmtImpl w indent r)
-      let first := firstLine rs
-      let combined := ls ++ " " ++ opStr ++ " " ++ first
-      if indent + blen combined ≤ w then
-        if hasNewline rs then ls ++ " " ++ opStr ++ " " ++ first ++ "\n" ++ restLines rs
-        else ls ++ " " ++ opStr ++ " " ++ rs
-      else ls ++ "\n" ++ makeIndent indent ++ opStr ++ " " ++ rs
-    else
-      let ri := indent + INDENT_SIZE
-      ls ++ "\n" ++ makeIndent ri ++ opStr ++ " " ++ parenIf rp (fmtImpl w ri r)
-  | e => exprToSource e
+    some (condLayout w indent (fmtImplP w indent c) (fun _ => fmtImplP w (indent + INDENT_SIZE) c)
+      (fmtImplP w (indent + INDENT_SIZE) t)
+      (elseLayout indent (fmtChainP w indent e) (fun _ => fmtImplP w (indent + INDENT_SIZE) e)))
+  | _ => none
+/-- one item of `format_list_multiline`, on its own line at `inner` -/
+def fmtItemP (w inner : Nat) : Item → List Piece
+  | .mk lead e tr =>
+    leadP (makeIndent inner) lead ++ .text ("\n" ++ makeIndent inner) ::
+      (fmtImplP w inner e ++ .text "," :: trailP tr)
+def fmtItemsP (w inner : Nat) : List Item → List Piece
+  | [] => []
+  | i :: rest => fmtItemP w inner i ++ fmtItemsP w inner rest
+/-- one entry of `format_record_multiline` -/
+def fmtEntryP (w inner : Nat) : Entry → List Piece
+  | .mk lead k v tr =>
+    leadP (makeIndent inner) lead ++ .text ("\n" ++ makeIndent inner) ::
+      (fmtKeyedP w inner k (fmtImplP w inner v) ++ .text "," :: trailP tr)
+def fmtEntriesP (w inner : Nat) : List Entry → List Piece
+  | [] => []
+  | e :: rest => fmtEntryP w inner e ++ fmtEntriesP w inner rest
+/-- `format_record_entry` given the formatted value -/
+def fmtKeyedP (w inner : Nat) : Key → List Piece → List Piece
+  | .static k, vs => .text (formatRecordKey k ++ ": ") :: vs
+  | .dyn ke, vs => .text "[" :: (fmtImplP w inner ke ++ .text "]: " :: vs)
+  | .short n, _ => [.text n]
+  | .spread e, _ => fmtImplP w inner e
+/-- the arguments of `format_call_multiline` -/
+def fmtArgsP (w inner : Nat) : List Expr → List Piece
+  | [] => []
+  | a :: rest =>
+    .text ("\n" ++ makeIndent inner) :: (fmtImplP w inner a ++ .text "," :: fmtArgsP w inner rest)
+/-- one statement of `format_do_block_multiline` -/
+def fmtStmtP (w inner : Nat) : Item → List Piece
+  | .mk lead e tr =>
+    leadP (makeIndent inner) lead ++ .text ("\n" ++ makeIndent inner) ::
+      (protectP (fmtImplP w inner e) ++ trailP tr)
+def fmtStmtsP (w inner : Nat) : List Item → List Piece
+  | [] => []
+  | i :: rest => fmtStmtP w inner i ++ fmtStmtsP w inner rest
+/-- the `return` of a do-block: its leading comments and the expression; a trailing comment
+    of the item is NOT printed (`format_do_block_multiline` never reads
+    `return_expr.trailing`; the parser always leaves it `None`) -/
+def fmtRetP (w inner : Nat) : Item → List Piece
+  | .mk lead e _ =>
+    leadP (makeIndent inner) lead ++ .text ("\n" ++ makeIndent inner ++ "return ") ::
+      fmtImplP w inner e
 end
+
+/-! #### the functions of `formatter.rs`, one by one (not recursive: they call `fmtImplP`) -/
+
+/-- `format_lambda` -/
+def fmtLambdaP (w indent : Nat) (args : List LArg) (body : Expr) : List Piece :=
+  lambdaLayout w indent args body (fmtImplP w indent body)
+    (fun _ => fmtImplP w (indent + INDENT_SIZE) body)
+
+/-- `format_conditional_multiline` -/
+def fmtCondP (w indent : Nat) (c t e : Expr) : List Piece :=
+  condLayout w indent (fmtImplP w indent c) (fun _ => fmtImplP w (indent + INDENT_SIZE) c)
+    (fmtImplP w (indent + INDENT_SIZE) t)
+    (elseLayout indent (fmtChainP w indent e) (fun _ => fmtImplP w (indent + INDENT_SIZE) e))
+
+/-- `format_binary_op_multiline` -/
+def fmtBinP (w indent : Nat) (op : BinOp) (l r : Expr) : List Piece :=
+  binLayout w indent op l r (fmtImplP w indent l) (fun _ => fmtImplP w indent r)
+    (fun _ => fmtImplP w (indent + INDENT_SIZE) r)
+
+/-- `format_multiline`.  The last arm is `_ => expr_to_source(expr)`: literals and names, and
+    a lambda — which `format_expr_impl` never passes on to `format_multiline`. -/
+def fmtMultiP (w indent : Nat) : Expr → List Piece
+  | .output e => .text "output " :: fmtImplP w indent e
+  | .assign n v => .text (n ++ " = ") :: fmtImplP w indent v
+  | .list items =>
+    if items.isEmpty then [.text "[]"]
+    else .text "[" :: (fmtItemsP w (indent + INDENT_SIZE) items ++
+      [.text ("\n" ++ makeIndent indent ++ "]")])
+  | .record es =>
+    if es.isEmpty then [.text "{}"]
+    else .text "{" :: (fmtEntriesP w (indent + INDENT_SIZE) es ++
+      [.text ("\n" ++ makeIndent indent ++ "}")])
+  | .cond c t e => fmtCondP w indent c t e
+  | .call f args =>
+    if args.isEmpty then parenP (needsParens f .postfix_) (fmtImplP w indent f) ++ [.text "()"]
+    else parenP (needsParens f .postfix_) (fmtImplP w indent f) ++
+      .text "(" :: (fmtArgsP w (indent + INDENT_SIZE) args ++
+        [.text ("\n" ++ makeIndent indent ++ ")")])
+  | .bin op l r => fmtBinP w indent op l r
+  | .doBlock ss r =>
+    .text "do {" :: (fmtStmtsP w (indent + INDENT_SIZE) ss ++
+      (fmtRetP w (indent + INDENT_SIZE) r ++ [.text ("\n" ++ makeIndent indent ++ "}")]))
+  | .un op e => .text (unaryOpToSource op) :: parenP (needsParens e .prefix_) (fmtImplP w indent e)
+  | .fact e => parenP (needsParens e .postfix_) (fmtImplP w indent e) ++ [.text "!"]
+  | .access e i =>
+    parenP (needsParens e .postfix_) (fmtImplP w indent e) ++
+      .text "[" :: (fmtImplP w indent i ++ [.text "]"])
+  | .dot e f => parenP (needsParens e .postfix_) (fmtImplP w indent e) ++ [.text ("." ++ f)]
+  | .spread e => .text "..." :: fmtImplP w indent e
+  | e => [.text (exprToSource e)]
+
+/-- `format_expr_impl` as a string -/
+def fmtImpl (w indent : Nat) (e : Expr) : String := render (fmtImplP w indent e)
+
+/-- the pieces of `format_expr`'s result -/
+def formatExprP (e : Expr) (maxColumns : Option Nat) : List Piece :=
+  protectP (fmtImplP (maxColumns.getD DEFAULT_MAX_COLUMNS) 0 e)
 
 /-- `format_expr` -/
 def formatExpr (e : Expr) (maxColumns : Option Nat) : String :=
